@@ -24,6 +24,8 @@ from . import common, pool
 def _worker(args):
     modname, shard, nshards, tier, seed = args
     mod = importlib.import_module(modname)
+    prog = common.progress_path(f"{mod.PID}_{shard}")
+    prog.write_text("null")
     rng = random.Random(seed)
     order = pool.Order("random", seed + shard)
     pool.install_inline(order)
@@ -42,6 +44,7 @@ def _worker(args):
                 continue
         elif idx % nshards != shard:
             continue
+        prog.write_text(json.dumps(case, default=str))
         try:
             r = mod.evaluate(case, drv)
         except Exception as e:  # harness error: never silently dropped
@@ -62,6 +65,7 @@ def _worker(args):
                 out["first_bad"][key] = r["detail"]
             bump(out["tags"], "bad:" + r["verdict"])
     drv.close()
+    prog.write_text("null")
     out["orders"] = order.nontrivial
     return out
 
@@ -78,10 +82,19 @@ def run_property(mod, tier: str, seed: int, shrink_budget=80, max_report=24) -> 
     nshards = common.n_workers(tier)
     if getattr(mod, "MAX_WORKERS", None):
         nshards = min(nshards, mod.MAX_WORKERS)
-    results = common.run_sharded(_worker, [(mod.__name__, i, nshards, tier, seed) for i in range(nshards)])
+    results = common.run_sharded(_worker, [(mod.__name__, i, nshards, tier, seed) for i in range(nshards)],
+                                 progress_tags=[f"{mod.PID}_{i}" for i in range(nshards)])
     first_bad = {}
     harness_errors = []
     for r in results:
+        if r.get("crashed"):
+            if r.get("last_case") is not None:
+                # the interpreter died while the real code was evaluating this case: that is a failing input
+                run.violation(dict(case=r["last_case"], expected="a result or a Python exception",
+                                   actual=f"process crashed (exit code {r['exitcode']}) while evaluating this case"))
+            else:
+                harness_errors.append(dict(case=None, error=f"worker died: exit code {r['exitcode']}\n{r.get('traceback')}"))
+            continue
         run.evals += r["evals"]
         run.distinct |= r["distinct"]
         for k, v in r["tags"].items():
